@@ -349,3 +349,7 @@ def tyg_captures(ctx, prog):
 tyg_captures.rule_id = "C12.TYG-captures"
 
 RULES = [tyg_strong, pdom_breaker, unlink_queued, tyg_captures]
+
+# control signature of the bookkeeping effects this property depends on (rules/ctrlsig.py)
+from .ctrlsig import make_rule as _ctrl_rule  # noqa: E402
+RULES.append(_ctrl_rule("C12"))
